@@ -23,7 +23,7 @@ CLAIMED = {
             '(complete registry seeds, add-before-reuse); carry-over of factors/domains/start/edges; edge-placement guard truth table; caller-supplied avoid set honoured and seeded with the rule\'s own lhs; primal-graph vertices and cliques; child recursion iff not the parent bag',
             'parameter-forwarding dataflow; fresh-name typestate; guard truth tables'),
     'C06': ('element-wise wrapper homomorphism: the function applied to `default` equals the function applied to `physical` and the torch op of that name on every float class '
-            '(abstract interpretation of the method bodies); identities/defaults of commutative and binary(...) ops; in-place discipline and no-aliasing of self.physical by effect analysis; derived state (caches) follows its sources; slices computed from a dim parameter see it non-negative',
+            '(abstract interpretation of the method bodies); identities/defaults of commutative and binary(...) ops; in-place discipline and no-aliasing of self.physical by effect analysis; derived state (caches) follows its sources; defaults wrapped into tensors keep the dtype; slices computed from a dim parameter see it non-negative',
             'abstract interpretation over float classes; effect analysis'),
     'C07': ('einsum callbacks agree with the semiring mul on every class pair; operands default_to(zero) before unification and results default to from_int(0); '
             'mv/mm index strings; pointer trailing dimension agreement over all returns; co-indexing loop visits every (axis, index) position; stride-0 reduction only for sum-free equations',
@@ -48,7 +48,7 @@ CLAIMED = {
             'CFG path rules (raise-after-write), field-coverage and who-may-write queries over the class model'),
     'C17': ('conjoin_rules called only under conjoinable(); fresh-name protocol for paired nonterminals; ValueError raised exactly for terminal/terminal conflicts; conjoinable() decides by nodes, ordered attachments and ordered externals; paired rule shape',
             'guard dominance; fresh-name typestate; guard truth table'),
-    'C18': ('public queries have no write effect on parameter roots; every tensor in-place sink in their call graphs writes fresh or owned storage; clone results share no storage with self; no mutable default argument that is written or handed out; no module-level mutable written; no decorator that keeps state between calls',
+    'C18': ('public queries have no write effect on parameter roots; every tensor in-place sink in their call graphs writes fresh or owned storage; clone results share no storage with self; no mutable default argument that is written or handed out; no module-level mutable written; no decorator that keeps state between calls; FGGDerivation.derive among the pure queries',
             'interprocedural storage-ownership and effect analysis'),
     'C19': ('nonterminal_graph vertices come from the complete nonterminal registry and an edge is added for every nonterminal rhs edge of every rule; scc starts a visit from every unvisited vertex; consumers iterate the result in order and store every label; Tarjan low-link truth table; stack / on-stack set mirrored; component-local state of the consumers\' loops',
             'vertex/edge-source coverage; iteration-source rules'),
